@@ -663,8 +663,41 @@ class C15(PokerProp):
     def gen_case(self, rng):
         case = poker.gen_cfg(rng, self.scope)
         poker.play(rng, case, probes_per_state=0)
+        if rng.random() < 0.25 and case["ops"]:
+            # take-back: the object is played along line A, rewound with reset_state_from_action_dicts to a prefix of a
+            # DIFFERENT line B of the same deal, and then driven along B -- it must behave like a fresh object playing B
+            import copy
+            alt = {k: copy.deepcopy(v) for k, v in case.items() if k != "ops"}
+            poker.play(rng, alt, probes_per_state=0, policy=rng.choice(["minraise", "caller", "random", "potty", "allin"]))
+            b_ops = [o for o in alt["ops"] if not o.get("probe")]
+            if b_ops:
+                m = rng.randrange(0, len(b_ops))
+                try:
+                    _, gb = poker.run_ops({**alt, "ops": b_ops[:m], "fork_at": None, "resume_at": None})
+                    blog = [[a.player, a.action, a.amount] for a in gb.actions] if gb is not None else None
+                except Exception:
+                    blog = None
+                if blog is not None and len(blog) == m:
+                    # (line A is cut while the first street is still being played: a reset deliberately keeps the object's
+                    # board and deck, so rewinding across a deal is not "the same inputs")
+                    a_ops = [o for o in case["ops"] if not o.get("probe")]
+                    ka = 0
+                    for j in range(1, len(a_ops) + 1):
+                        try:
+                            _, ga = poker.run_ops({**case, "ops": a_ops[:j], "fork_at": None, "resume_at": None})
+                        except Exception:
+                            break
+                        if ga is None or ga.street != 0 or ga.is_complete or len(ga.actions) != j:
+                            break
+                        ka = j
+                    if ka >= 1:
+                        ka = rng.randrange(1, ka + 1)
+                        case["ops"] = a_ops[:ka] + [{"k": "reset", "log": blog}] + b_ops[m:]
+                        case["fork_at"] = None; case["resume_at"] = None
         ops = case["ops"]
         k = rng.choice([len(ops), len(ops), rng.randrange(0, len(ops) + 1)]) if ops else 0
+        if any(o.get("k") == "reset" for o in ops):
+            k = len(ops)
         case["cut"] = k
         case["resets"] = rng.choice([1, 2, 3])
         # the action log is not among the serialisable fields the property lists: resume without it in part of the cases
